@@ -37,6 +37,9 @@ pub enum Step {
     /// stdout through Redirection::RcFile (true) / File (false) while the caller
     /// keeps its own handle open
     SpawnToUserPipe(bool),
+    /// spawn (all streams inherited) while the parent's own fds in the mask
+    /// (bit 0..2 = fd 0..2) are closed, as in a daemonized parent
+    SpawnClosedStd(u8),
 }
 
 #[derive(Clone, Debug, Serialize, Deserialize)]
@@ -183,6 +186,58 @@ fn audit_inflight(pid: u32, w: &World) -> Result<(), Leak> {
     Ok(())
 }
 
+/// Run a library call while a monitor thread audits every child that has
+/// exec'ed.  A leaked launch-status channel makes `Popen::create` itself block
+/// for as long as the (never-ending) helper children live, so the audit cannot
+/// wait for the call to return: on a leak the children are killed, which lets
+/// the call finish, and the leak is reported.
+fn with_monitor<T>(f: impl FnOnce() -> T) -> (T, Option<Leak>) {
+    use std::sync::{Arc, Mutex};
+    let stop = Arc::new(AtomicBool::new(false));
+    let found: Arc<Mutex<Option<Leak>>> = Arc::new(Mutex::new(None));
+    let (s2, f2) = (stop.clone(), found.clone());
+    let helper_exe = vchild_path();
+    let mon = std::thread::spawn(move || {
+        // The monitor only matters when the call blocks.  It stays passive for
+        // 150 ms (an ordinary spawn is over long before) because it opens files
+        // under /proc, which must not happen while a step has closed the
+        // process's own fds 0-2 for a moment (the numbers would be reused).
+        let t0 = ip::real_now_ns();
+        while !s2.load(SeqCst) {
+            ip::real_sleep_ms(10);
+            if (ip::real_now_ns() - t0) / 1_000_000 < 150 {
+                continue;
+            }
+            let snap = ip::pipes_snapshot();
+            let mut w = World { pipes: BTreeMap::new(), status: BTreeSet::new(), owner: BTreeMap::new(), capture: BTreeSet::new() };
+            for pr in &snap {
+                w.pipes.insert(pr.ino, *pr);
+            }
+            let kids = hang::my_children();
+            for c in &kids {
+                if proc_exe(*c as u32).map(|e| e == helper_exe).unwrap_or(false) {
+                    if let Err(l) = audit_inflight(*c as u32, &w) {
+                        *f2.lock().unwrap() = Some(l);
+                        // from here on no file is opened any more: kill by the pids already known
+                        while !s2.load(SeqCst) {
+                            for k in &kids {
+                                unsafe { ip::raw_kill(*k, libc::SIGKILL) };
+                            }
+                            ip::real_sleep_ms(10);
+                        }
+                        return;
+                    }
+                }
+            }
+        }
+    });
+    let r = f();
+    stop.store(true, SeqCst);
+    let _ = mon.join();
+    let l = found.lock().unwrap().take();
+    (r, l)
+}
+
 /// A pipe of the harness's own (not registered, both ends close-on-exec).
 fn harness_pipe() -> (std::fs::File, std::fs::File) {
     use std::os::unix::io::FromRawFd;
@@ -244,7 +299,12 @@ pub fn check_history(ctx: &Ctx, case: &LeakCase, rep: &mut CaseReport) -> CaseRe
                 let (o, e) = if *o == SK::Merge && *e == SK::Merge { (SK::Pipe, SK::Merge) } else { (*o, *e) };
                 let i = if *i == SK::Merge { SK::None } else { *i };
                 let cfg = PopenConfig { stdin: red(i), stdout: red(o), stderr: red(e), ..Default::default() };
-                match Popen::create(&child_argv(i), cfg) {
+                let (created, leak) = with_monitor(|| Popen::create(&child_argv(i), cfg));
+                if let Some(l) = leak {
+                    result = fail(l.kind, context, format!("while Popen::create was still running: {}", l.detail));
+                    break 'steps;
+                }
+                match created {
                     Ok(p) => {
                         let snap = ip::pipes_snapshot();
                         if let Some(first) = snap.get(snap_before) {
@@ -281,7 +341,12 @@ pub fn check_history(ctx: &Ctx, case: &LeakCase, rep: &mut CaseReport) -> CaseRe
                 if *pout {
                     p = p.stdout(Redirection::Pipe);
                 }
-                match p.popen() {
+                let (popened, leak) = with_monitor(|| p.popen());
+                if let Some(l) = leak {
+                    result = fail(l.kind, context, format!("while Pipeline::popen was still running: {}", l.detail));
+                    break 'steps;
+                }
+                match popened {
                     Ok(v) => {
                         let snap = ip::pipes_snapshot();
                         // every create call's first pipe is its status channel: the pipes made in
@@ -331,7 +396,12 @@ pub fn check_history(ctx: &Ctx, case: &LeakCase, rep: &mut CaseReport) -> CaseRe
                 let n = (*n).clamp(2, 6) as usize;
                 let cmds: Vec<Exec> = (0..n).map(|_| Exec::cmd(vchild_path()).arg("holdread").arg("0")).collect();
                 let p = Pipeline::from_exec_iter(cmds).stdin(vec![b'x'; 10]);
-                match p.communicate() {
+                let (comm, leak) = with_monitor(|| p.communicate());
+                if let Some(l) = leak {
+                    result = fail(l.kind, context, format!("while Pipeline::communicate was still running: {}", l.detail));
+                    break 'steps;
+                }
+                match comm {
                     Ok(c) => {
                         // the capture pipe is the first pipe made in this step
                         let snap = ip::pipes_snapshot();
@@ -339,6 +409,30 @@ pub fn check_history(ctx: &Ctx, case: &LeakCase, rep: &mut CaseReport) -> CaseRe
                             w.capture.insert(first.ino);
                         }
                         comms.push(c);
+                    }
+                    Err(e) => {
+                        result = fail("spawn-error", context, e.to_string());
+                        break 'steps;
+                    }
+                }
+            }
+            Step::SpawnClosedStd(mask) => {
+                context = "closed-std";
+                let (res, leak) = with_monitor(|| {
+                    let _g = CloseGuard::new(*mask & 7);
+                    Popen::create(&child_argv(SK::None), PopenConfig::default())
+                });
+                if let Some(l) = leak {
+                    result = fail(l.kind, context, format!("while Popen::create was still running: {}", l.detail));
+                    break 'steps;
+                }
+                match res {
+                    Ok(p) => {
+                        let snap = ip::pipes_snapshot();
+                        if let Some(first) = snap.get(snap_before) {
+                            w.status.insert(first.ino);
+                        }
+                        live.push(p);
                     }
                     Err(e) => {
                         result = fail("spawn-error", context, e.to_string());
@@ -361,7 +455,12 @@ pub fn check_history(ctx: &Ctx, case: &LeakCase, rep: &mut CaseReport) -> CaseRe
                     c
                 };
                 HELD.with(|h| h.borrow_mut().push(r));
-                match Popen::create(&child_argv(SK::None), cfg) {
+                let (created, leak) = with_monitor(|| Popen::create(&child_argv(SK::None), cfg));
+                if let Some(l) = leak {
+                    result = fail(l.kind, context, format!("while Popen::create was still running: {}", l.detail));
+                    break 'steps;
+                }
+                match created {
                     Ok(p) => {
                         let snap = ip::pipes_snapshot();
                         // pipes of this step: the user pipe, then the status pipe of create
@@ -808,6 +907,7 @@ pub fn history_strategy() -> impl Strategy<Value = LeakCase> {
         2 => (2u8..7).prop_map(Step::PipelineCommunicate),
         1 => (2u8..7, any::<bool>()).prop_map(|(n, a)| Step::PipelineStream(n, a)),
         2 => any::<bool>().prop_map(Step::SpawnToUserPipe),
+        2 => (1u8..8).prop_map(Step::SpawnClosedStd),
     ];
     prop::collection::vec(step, 1..13).prop_map(|steps| LeakCase { steps })
 }
